@@ -388,84 +388,84 @@ func extraC02Reader(c *Ctx, r *Report) {
 				}
 			}
 			for _, f := range owners {
-			sig := f.Signature.Results()
-			if sig.Len() != 2 || sig.At(1).Type().String() != "error" {
-				r.Undecided("C02-R5", fname(f)+":shape", f.Pos(), "a goroutine body reader whose owner does not return (result, error): the continue/stop protocol cannot be identified")
-				return
-			}
-			for i, ret := range returnsOf(f) {
-				res, err := retResult(ret, 0), retResult(ret, 1)
-				key := fmt.Sprintf("%s:return#%d", fname(f), i)
-				if isNilConst(res) || !isNilConst(err) {
-					r.Triv("C02-R5", key, ret.Pos(), "stop signal (nil result or error)")
-					continue
+				sig := f.Signature.Results()
+				if sig.Len() != 2 || sig.At(1).Type().String() != "error" {
+					r.Undecided("C02-R5", fname(f)+":shape", f.Pos(), "a goroutine body reader whose owner does not return (result, error): the continue/stop protocol cannot be identified")
+					return
 				}
-				if fromRecv(res, 8) {
-					r.OK("C02-R5", key, ret.Pos(), "the continue-signal carries the result received from the reader goroutine")
-				} else {
-					r.Bad("C02-R5", key, ret.Pos(), "the caller is told to read again although the goroutine started for this read has not delivered its result: a second reader is started on the same body and buffer, and the chunk the first one takes is lost")
-				}
-			}
-			// callers stop on a stop signal
-			for _, cf := range c.Funcs {
-				eachInstr(cf, func(ci ssa.Instruction) {
-					call, ok := ci.(*ssa.Call)
-					if !ok || call.Call.StaticCallee() != f {
-						return
+				for i, ret := range returnsOf(f) {
+					res, err := retResult(ret, 0), retResult(ret, 1)
+					key := fmt.Sprintf("%s:return#%d", fname(f), i)
+					if isNilConst(res) || !isNilConst(err) {
+						r.Triv("C02-R5", key, ret.Pos(), "stop signal (nil result or error)")
+						continue
 					}
-					key := fname(cf) + ":stops-on-nil-or-error"
-					stops := 0
-					for _, ref := range *call.Referrers() {
-						ex, ok := ref.(*ssa.Extract)
-						if !ok {
-							continue
+					if fromRecv(res, 8) {
+						r.OK("C02-R5", key, ret.Pos(), "the continue-signal carries the result received from the reader goroutine")
+					} else {
+						r.Bad("C02-R5", key, ret.Pos(), "the caller is told to read again although the goroutine started for this read has not delivered its result: a second reader is started on the same body and buffer, and the chunk the first one takes is lost")
+					}
+				}
+				// callers stop on a stop signal
+				for _, cf := range c.Funcs {
+					eachInstr(cf, func(ci ssa.Instruction) {
+						call, ok := ci.(*ssa.Call)
+						if !ok || call.Call.StaticCallee() != f {
+							return
 						}
-						// the extracted value itself, or a phi it flows into (result/err assigned in several branches)
-						var uses []ssa.Instruction
-						seenV := map[ssa.Value]bool{}
-						var collect func(v ssa.Value)
-						collect = func(v ssa.Value) {
-							if seenV[v] || v.Referrers() == nil {
-								return
-							}
-							seenV[v] = true
-							for _, u := range *v.Referrers() {
-								if ph, isPhi := u.(*ssa.Phi); isPhi {
-									collect(ph)
-									continue
-								}
-								uses = append(uses, u)
-							}
-						}
-						collect(ex)
-						for _, ref2 := range uses {
-							bo, ok := ref2.(*ssa.BinOp)
-							if !ok || !isNilConst(bo.Y) || (bo.Op != token.EQL && bo.Op != token.NEQ) {
+						key := fname(cf) + ":stops-on-nil-or-error"
+						stops := 0
+						for _, ref := range *call.Referrers() {
+							ex, ok := ref.(*ssa.Extract)
+							if !ok {
 								continue
 							}
-							for _, ref3 := range *bo.Referrers() {
-								br, ok := ref3.(*ssa.If)
-								if !ok {
+							// the extracted value itself, or a phi it flows into (result/err assigned in several branches)
+							var uses []ssa.Instruction
+							seenV := map[ssa.Value]bool{}
+							var collect func(v ssa.Value)
+							collect = func(v ssa.Value) {
+								if seenV[v] || v.Referrers() == nil {
+									return
+								}
+								seenV[v] = true
+								for _, u := range *v.Referrers() {
+									if ph, isPhi := u.(*ssa.Phi); isPhi {
+										collect(ph)
+										continue
+									}
+									uses = append(uses, u)
+								}
+							}
+							collect(ex)
+							for _, ref2 := range uses {
+								bo, ok := ref2.(*ssa.BinOp)
+								if !ok || !isNilConst(bo.Y) || (bo.Op != token.EQL && bo.Op != token.NEQ) {
 									continue
 								}
-								// result == nil → true branch stops; err != nil → true branch stops
-								stopSucc := br.Block().Succs[0]
-								if (ex.Index == 0 && bo.Op == token.NEQ) || (ex.Index == 1 && bo.Op == token.EQL) {
-									stopSucc = br.Block().Succs[1]
-								}
-								if len(stopSucc.Instrs) > 0 && !reachAvoiding(stopSucc.Instrs[0], call, nil) {
-									stops |= 1 << ex.Index
+								for _, ref3 := range *bo.Referrers() {
+									br, ok := ref3.(*ssa.If)
+									if !ok {
+										continue
+									}
+									// result == nil → true branch stops; err != nil → true branch stops
+									stopSucc := br.Block().Succs[0]
+									if (ex.Index == 0 && bo.Op == token.NEQ) || (ex.Index == 1 && bo.Op == token.EQL) {
+										stopSucc = br.Block().Succs[1]
+									}
+									if len(stopSucc.Instrs) > 0 && !reachAvoiding(stopSucc.Instrs[0], call, nil) {
+										stops |= 1 << ex.Index
+									}
 								}
 							}
 						}
-					}
-					if stops == 3 {
-						r.OK("C02-R5", key, ci.Pos(), "the read loop is left on a nil result and on an error")
-					} else {
-						r.Bad("C02-R5", key, ci.Pos(), "the read loop can call the reader again after a stop signal (nil result or error) while the previous reader goroutine may still be blocked in Read")
-					}
-				})
-			}
+						if stops == 3 {
+							r.OK("C02-R5", key, ci.Pos(), "the read loop is left on a nil result and on an error")
+						} else {
+							r.Bad("C02-R5", key, ci.Pos(), "the read loop can call the reader again after a stop signal (nil result or error) while the previous reader goroutine may still be blocked in Read")
+						}
+					})
+				}
 			}
 		})
 	}
